@@ -818,8 +818,41 @@ def _check_errors_propagate(rep: Report, ix) -> None:
     rep.floor("paths through the exception handlers of solve_poisson_equation", n, 2)
 
 
+def _check_result_dtype(rep: Report, ix) -> None:
+    """the solver stores the solution into the array handed over as `out` (`out[:] = result`): a result field allocated
+    with the default (real double) dtype silently drops the imaginary part of the solution of a complex right-hand side --
+    the returned field then is not a solution.  Rule: the field whose data is handed to the solver is allocated with the
+    dtype of the right-hand side."""
+    f = ix.func("pde/pdes/laplace.py", "solve_poisson_equation")
+    rep.saw("functions", f.ref)
+    rhs = f.node.args.args[0].arg
+    # the solver call  solver(<rhs>.data, <result>.data)
+    res_name = None
+    for x in ast.walk(f.node):
+        if isinstance(x, ast.Call) and len(x.args) == 2 and dotted(x.args[0]) == f"{rhs}.data" and isinstance(x.args[1], ast.Attribute) and x.args[1].attr == "data" and isinstance(x.args[1].value, ast.Name):
+            res_name = x.args[1].value.id
+    if res_name is None:
+        raise AnalysisError(f"{f.ref}: the call `solver({rhs}.data, <result>.data)` was not found")
+    allocs = [x for x in ast.walk(f.node) if isinstance(x, ast.Assign) and len(x.targets) == 1 and isinstance(x.targets[0], ast.Name) and x.targets[0].id == res_name and isinstance(x.value, ast.Call)]
+    if len(allocs) != 1:
+        raise AnalysisError(f"{f.ref}: {len(allocs)} allocations of `{res_name}`")
+    call = allocs[0].value
+    dt = next((kw.value for kw in call.keywords if kw.arg == "dtype"), None)
+    ok = dt is not None and ast.unparse(dt) in (f"{rhs}.dtype", f"{rhs}.data.dtype")
+    rep.oblige("solve_poisson_equation: the result field has the dtype of the right-hand side", ok, ast.unparse(call))
+    if not ok:
+        rep.violation(
+            "C18.result-dtype",
+            f"{f.ref}::{res_name}",
+            f"`{ast.unparse(allocs[0])}`: the field the solver writes into is allocated with dtype `{ast.unparse(dt) if dt is not None else 'default (float)'}`; for a complex right-hand side the imaginary part of the "
+            "solution is cast away (ComplexWarning only) and the returned field does not solve the discrete problem",
+            line=allocs[0].lineno,
+        )
+
+
 def _check_tail(rep: Report, ix) -> None:
     _check_errors_propagate(rep, ix)
+    _check_result_dtype(rep, ix)
     # solve_laplace_equation = Poisson with zero right-hand side
     fl = ix.func("pde/pdes/laplace.py", "solve_laplace_equation")
     rep.saw("functions", fl.ref)
